@@ -4,6 +4,7 @@ import XalanModel.C12.MultiDocProofs
 import XalanModel.C12.AxesProofs
 import XalanModel.C12.WalksProofs
 import XalanModel.Generated.C12_WalkShapes
+import XalanModel.Generated.C12_Flush
 /-!
 # C12 — node-sets are duplicate-free sets in one consistent document order
 
@@ -156,6 +157,17 @@ theorem structural_asWritten_counterexample :
     indexOf t [Step.child 0] < indexOf t [Step.child 0, Step.child 0] ∧
     isNodeAfterStructural t true [Step.child 0] [Step.child 0, Step.child 0] = false ∧
     isNodeAfterStructural t true [Step.child 0, Step.child 0] [Step.child 0] = true := by decide
+
+/-- **The trees the processor builds itself are numbered in pre-order** (translator obligation; the hypothesis
+"stored indexes number the structural pre-order walk" of `structural_eq_index` / `addNodeInDocOrder_sortedSet` for
+result tree fragments, `FormatterToSourceTree` documents and `XalanDocumentBuilder`/parsed source trees).  Both
+builders buffer character data and create the text node lazily, while a node's index is handed out at creation:
+every member function of `FormatterToSourceTree` and `XalanSourceTreeContentHandler` that creates a node calls
+`processAccumulatedText()` before its first creation.  `translate/c12_flush.py` regenerates the table from the
+working tree on every run (and fails if one of the event handlers is missing); the runtime counterpart is the
+`build`/`rtf` streams of the check, which compare index order with the structural walk on the real trees. -/
+theorem buildersFlushBeforeCreate :
+    ∀ h ∈ XalanModel.Generated.C12.builderHandlers, h.2.2.1 = true → h.2.2.2 = true := by decide
 
 /-! ## ordered insert -/
 
